@@ -51,7 +51,7 @@ let c01 s b =
 let cmd_val s b =
   let ssa = parse_tape s in
   let reg = parse_tape s in
-  Printf.bprintf b "val %d" (if check_alloc f32_eqb ssa reg then 1 else 0)
+  Printf.bprintf b "val %d wf %d" (if check_alloc f32_eqb ssa reg then 1 else 0) (if ssa_wf ssa then 1 else 0)
 
 let dispatch cmd s b =
   match cmd with
